@@ -21,6 +21,12 @@ constexpr int FFT_CACHE_SIZE = DSPLIB_FFT_CACHE_SIZE;
 
 static_assert(FFT_CACHE_SIZE > 0);
 
+#ifdef DSPLIB_VERIF
+//verification hook (read-only): the per-thread plan caches, registered when they are first used
+thread_local const LRUCache<int, std::shared_ptr<BaseFftPlanC>>* verif_cache_c = nullptr;
+thread_local const LRUCache<int, std::shared_ptr<BaseFftPlanR>>* verif_cache_r = nullptr;
+#endif
+
 std::shared_ptr<BaseFftPlanC> _get_fft_plan(int n) {
     if (isprime(n)) {
         return std::make_shared<PrimesFftC>(n);
@@ -52,6 +58,9 @@ std::shared_ptr<BaseFftPlanC> create_fft_plan(int n) {
 
     //TODO: use weak_ptr cache to prevent duplication
     thread_local LRUCache<int, std::shared_ptr<BaseFftPlanC>> cache{FFT_CACHE_SIZE};
+#ifdef DSPLIB_VERIF
+    verif_cache_c = &cache;
+#endif
     if (!cache.exists(n)) {
         auto plan = _get_fft_plan(n);
         cache.put(n, plan);
@@ -66,6 +75,9 @@ std::shared_ptr<BaseFftPlanR> create_rfft_plan(int n) {
     }
 
     thread_local LRUCache<int, std::shared_ptr<BaseFftPlanR>> cache{FFT_CACHE_SIZE};
+#ifdef DSPLIB_VERIF
+    verif_cache_r = &cache;
+#endif
     if (!cache.exists(n)) {
         auto plan = _get_rfft_plan(n);
         cache.put(n, plan);
@@ -121,5 +133,19 @@ arr_cmplx rfft(const arr_real& x) {
 arr_cmplx rfft(const arr_real& x, int n) {
     return fft(x, n);
 }
+
+#ifdef DSPLIB_VERIF
+//verification hook (read-only): keys of this thread's plan caches, most recently used first; capacity of the caches
+std::vector<int> verif_fft_cache_keys(bool real_cache) {
+    if (real_cache) {
+        return verif_cache_r ? verif_cache_r->verif_keys() : std::vector<int>{};
+    }
+    return verif_cache_c ? verif_cache_c->verif_keys() : std::vector<int>{};
+}
+
+int verif_fft_cache_capacity() {
+    return FFT_CACHE_SIZE;
+}
+#endif
 
 }   // namespace dsplib
